@@ -1,0 +1,25 @@
+//go:build verif
+
+// Contracts checked by /verif/gowp. This file contains comments only and is compiled only
+// with -tags verif.
+
+package names
+
+// C01 / C06 (a resource that is about to be created is findable by the name that was recorded
+// for it): when name generation reports success, the resource has a name - its own if it had
+// one, otherwise a candidate whose availability probe answered NotFound. Any other answer of the
+// probe - a timeout as much as a refusal - is returned as an error or leads to another candidate;
+// it never ends in "success" without a name.
+//@ func (*names.nameGenerator).GenerateName
+//@ props C01 C06
+//@ requires r != nil && cd != nil && r.reader != nil && r.namer != nil
+//@ ghost probedFree bool = false
+//@ let $probeErr = result (client.Reader).Get
+//@ let $candidate = result (names.NameGenerator).GenerateName
+//@ site (client.Reader).Get(_, _, $key, $obj, $gopts...) as probe
+//@   assert [C01,C06:the-candidate-name-is-what-is-probed] $key.Name == $candidate
+//@   update probedFree = call("k8s.io/apimachinery/pkg/api/errors.IsNotFound", err)
+//@ optional site (v1.Object).SetName($o, $n) as take-name
+//@   assert [C01,C06:only-a-candidate-whose-probe-said-not-found-is-taken] $o == cd && $n == $candidate && probedFree
+//@ ensures [C01:a-named-resource-keeps-its-name] old(cd.GetName()) != "" ==> (result == nil && cd.GetName() == old(cd.GetName()))
+//@ ensures [C01,C06:success-means-the-resource-has-a-name] result == nil && old(cd.GetName()) == "" && old(cd.GetGenerateName()) != "" ==> (cd.GetName() == $candidate && probedFree)
